@@ -10,6 +10,9 @@ let string_of_nlist (l : n list) : string =
   let b = Buffer.create 1024 in
   List.iter (fun x -> Buffer.add_char b (Char.chr ((int_of_n x) land 255))) l; Buffer.contents b
 
+(* tags of type Length (FieldTrait::ft_Length = 2) anywhere in the schema: the fields that announce a data field *)
+let lens : n list ref = ref []
+
 let load_schema (path : string) : schema =
   let ic = open_in path in
   let begin_s = ref "" and hdr = ref [] and hdrm = ref [] and msgs = ref [] and admin = Hashtbl.create 64
@@ -23,6 +26,9 @@ let load_schema (path : string) : schema =
     match words line with
     | "V" :: v :: _ -> begin_s := v
     | "A" :: t :: a :: _ -> Hashtbl.replace admin t (a = "1")
+    | "P" :: part :: ws when (List.iter (fun w -> match split_on ':' w with
+          | t :: _ :: "2" :: _ -> let t = n_of_int (int_of_string t) in if not (List.mem t !lens) then lens := t :: !lens
+          | _ -> ()) ws; false) -> ()
     | "P" :: "header" :: ws -> hdr := parse_traits ws; hdrm := parse_mand ws
     | "F" :: t :: name :: _ -> names := (n_of_int (int_of_string t), nlist_of_string name) :: !names
     | "P" :: "trailer" :: _ -> ()
@@ -112,4 +118,4 @@ let () =
   run_protocol (fun case impl ->
     let c = nlist_of_string case in
     let m = run c in
-    (string_of_nlist m, c19_ok_line sc c (nlist_of_string impl), c19_ok_line sc c m))
+    (string_of_nlist m, c19_ok_line sc !lens c (nlist_of_string impl), c19_ok_line sc !lens c m))
